@@ -493,13 +493,20 @@ def run_sem_case(case):
             signal.alarm(case.get('timeout', 30))
             try:
                 if shape == 'compiled-twice' and case.get('backend') != 'generated':
-                    # the semantics object given to compile(); a second compile of the same text with ANOTHER object of the same
-                    # class must not take the first model over
-                    sem_b, _ = make_semantics2('id', case['rules'], case.get('params'))
-                    m1 = tatsu.compile(case['ebnf'], semantics=sem)
-                    tatsu.compile(case['ebnf'], semantics=sem_b)
+                    # the semantics object given to compile(); a second compile of the same text with ANOTHER object OF THE SAME CLASS
+                    # must not take the first model over: the first model keeps running the actions of its own object
+                    class Two:
+                        def __init__(self, tag):
+                            self.tag = tag
+
+                        def _default(self, ast, *a, **k):
+                            return {'by': self.tag, 'v': ast}
                     kw2 = {k: v for k, v in kw.items() if k != 'semantics'}
+                    m1 = tatsu.compile(case['ebnf'], semantics=Two('first'))
+                    tatsu.compile(case['ebnf'], semantics=Two('second'))
                     o = outcome(lambda: m1.parse(text, start=case.get('start', 's'), **kw2))
+                    clear_caches()
+                    o['ref'] = outcome(lambda: tatsu.compile(case['ebnf'], semantics=Two('first')).parse(text, start=case.get('start', 's'), **kw2))
                 elif route == 'api':
                     o = outcome(lambda: tatsu.parse(case['ebnf'], text, start=case.get('start', 's'), **kw))
                 else:
